@@ -204,7 +204,7 @@ def all_selections(sc, rng, tier):
 
 def precision_part(chk, exprs):
     rng = chk.rng
-    n = 30 if chk.tier == "quick" else 200
+    n = 30 if chk.tier == "quick" else 500
     nsel = 0
     for i in range(n):
         d = session.scratch_dir()
@@ -356,7 +356,7 @@ def first_diff(a, b):
 
 def atomic_part(chk):
     rng = chk.rng
-    n = 4 if chk.tier == "quick" else 30
+    n = 4 if chk.tier == "quick" else 80
     nsnap = 0
     nint = 0
     for i in range(n):
